@@ -95,7 +95,7 @@ func (s *VStats) flush() {
 	if path == "" {
 		return
 	}
-	s.NonTrivial = s.NonTrivial[:0]
+	s.NonTrivial = []string{}
 	for k := range s.nontriv {
 		s.NonTrivial = append(s.NonTrivial, fmt.Sprintf("%016x", k))
 	}
